@@ -18,12 +18,41 @@ pub struct Workload {
     /// A file whose j-th read fails with EIO (under read fragmentation), so
     /// that its search ends with an error after some results were produced.
     pub read_fault: Option<(String, usize)>,
+    /// Files named explicitly on the command line (relative paths outside "w/"),
+    /// in addition to the traversed directory.
+    pub explicit: Vec<String>,
 }
 
 pub fn gen_workload(sub: u64) -> Workload {
     let mut rng = Rng::new(sub);
     let max_files = if rng.chance(1, 3) { 24 } else { 9 };
-    let corpus = gen_corpus(&mut rng, max_files, true);
+    let mut corpus = gen_corpus(&mut rng, max_files, true);
+    // Sometimes: files named explicitly next to the traversed directory, and
+    // binary files (a match, later a NUL) among the traversed ones. Explicit
+    // files are searched with a different binary-detection mode than traversed
+    // ones; a worker handles both kinds in one run.
+    let mut explicit = vec![];
+    if rng.chance(1, 3) {
+        let ne = 1 + rng.below(2);
+        for i in 0..ne {
+            let nl = 3 + rng.below(20);
+            let mut c = gen_text(&mut rng, nl, 4);
+            if rng.chance(1, 2) {
+                c.extend_from_slice(b"foo then binary \0 tail\n");
+            }
+            explicit.push(format!("x/e{i}.txt"));
+            corpus.files.push((format!("../x/e{i}.txt"), c));
+        }
+        let nb = 1 + rng.below(4);
+        for i in 0..nb {
+            let mut c = b"foo in a binary file\n".to_vec();
+            let nl = 2 + rng.below(10);
+            c.extend_from_slice(&gen_text(&mut rng, nl, 2));
+            c.push(0);
+            c.extend_from_slice(b"more foo\n");
+            corpus.files.push((format!("b{i}.bin"), c));
+        }
+    }
     let mode = MODES[rng.below(MODES.len())].to_string();
     let threads = if rng.chance(1, 8) { 9 + rng.below(8) } else { 2 + rng.below(7) };
     let open_fault = if rng.chance(1, 5) { Some(corpus.files[rng.below(corpus.files.len())].0.clone()) } else { None };
@@ -38,7 +67,8 @@ pub fn gen_workload(sub: u64) -> Workload {
     } else {
         None
     };
-    Workload { corpus, mode, threads, open_fault, read_fault }
+    let (open_fault, read_fault) = if explicit.is_empty() { (open_fault, read_fault) } else { (None, None) };
+    Workload { corpus, mode, threads, open_fault, read_fault, explicit }
 }
 
 fn args_for(w: &Workload, threads: usize) -> Vec<String> {
@@ -62,7 +92,15 @@ fn args_for(w: &Workload, threads: usize) -> Vec<String> {
     if w.mode != "files" {
         a.push("foo".into());
     }
-    a.push("w".into());
+    if w.explicit.is_empty() {
+        a.push("w".into());
+    } else if w.threads % 2 == 0 {
+        a.extend(w.explicit.iter().cloned());
+        a.push("w".into());
+    } else {
+        a.push("w".into());
+        a.extend(w.explicit.iter().cloned());
+    }
     a
 }
 
@@ -117,7 +155,7 @@ pub fn blocks_tolerating(mode: &str, out: &[u8], failed: Option<&str>) -> Result
             let mut seen = BTreeSet::new();
             for b in &v {
                 let head = b.split(|&c| c == b'\n').next().unwrap_or(b"").to_vec();
-                if !head.starts_with(b"w/") {
+                if !head.starts_with(b"w/") && !head.starts_with(b"x/") {
                     return Err(format!("block does not start with a path heading: {:?}", show(&head)));
                 }
                 if !seen.insert(head.clone()) {
